@@ -46,6 +46,7 @@ func cmdVerify(args []string) {
 	dump := fs.Bool("dump", false, "print the VC lines")
 	all := fs.Bool("all", false, "also verify functions without a contract (safety sweep)")
 	verbose := fs.Bool("v", false, "print every obligation")
+	ssaDump := fs.Bool("ssa", false, "print the SSA form and the loop ordinals of the selected functions, then stop")
 	fs.Parse(args)
 	t0 := time.Now()
 	p, err := LoadProg(*repo, strings.Split(*pkgs, ","), verifDir()+"/specs")
@@ -74,6 +75,15 @@ func cmdVerify(args []string) {
 		fn := p.Funcs[name]
 		con := p.CS.Funcs[name]
 		if con != nil && con.Trusted {
+			continue
+		}
+		if *ssaDump {
+			fn.WriteTo(os.Stdout)
+			vc := NewFuncVC(p, fn, nil)
+			vc.analyzeLoops()
+			for h, li := range vc.loops {
+				fmt.Printf("# loop %d: header block %d\n", li.ordinal, h.Index)
+			}
 			continue
 		}
 		vc := NewFuncVC(p, fn, con)
